@@ -185,16 +185,23 @@ def showRes : Except Err St → String
   | .error .outOfFuel => "unsupported:fuel"
   | .error .stack => "model-error:stack"
 
-def kindValue : String → V
+def kindValue (k : String) : V :=
+  if k.startsWith "q" then .str ((unhexAscii (k.drop 1).toString).getD "") else
+  match k with
   | "u" => .undef
   | "s" => .silent
   | "n" => .none
   | "l" => .seq [.int 1, .undef]
+  | "L" => .seq [.int 1, .int 2]
+  | "M" => .map [("k", .int 1)]
+  | "t" => .str "ab"
   | "k" => .kwargs [("k", .int 1)]
   | _ => .int 1
 
-/-- what the conversion layer of a builtin call does with arguments of the given kinds, per mode:
-    `conv-err` (an `UndefinedError` of the conversion), `body` (the body is reached) -/
+/-- what a builtin call does with arguments of the given kinds, per mode: the conversion layer
+    (`conv-err` = an `UndefinedError` of the conversion, `body` = the body is reached), and whether
+    the whole call (conversion + the questions of the body's hand model, nested calls included)
+    fails at a question (`ask-err`) -/
 def sigLine (id kind name : String) (kinds : List String) : String :=
   match sigOf kind name with
   | none => s!"{id}\tno-sig"
@@ -204,7 +211,10 @@ def sigLine (id kind name : String) (kinds : List String) : String :=
       | .ok _ => "body"
       | .error .undefinedError => "conv-err"
       | .error _ => "other-err")
-    id ++ "\t" ++ "\t".intercalate rs ++ "\t" ++ (if reach.isEmpty then "pure" else "touching")
+    let qs := Mode.all.map (fun m => match callBuiltin Ops.convOnly kind name args with
+      | some c => if c.failsAtAsk m then "ask-err" else "pass"
+      | none => "pass")
+    id ++ "\t" ++ "\t".intercalate rs ++ "\t" ++ (if reach.isEmpty then "pure" else "touching") ++ "\t" ++ "\t".intercalate qs
 
 def handle (ctx : List (String × V)) (line : String) : String :=
   match line.splitOn "\t" with
